@@ -74,6 +74,22 @@ impl<F: Future> Future for Budget<F> {
     }
 }
 
+/// Runs `mk()` to completion, but with probability `p_budget` % per attempt under a budget:
+/// a budgeted attempt that gives up is dropped (cancelled while pending or while notified) and a
+/// fresh future is made. At most three cancellations, then an unbudgeted attempt.
+fn with_cancellations<F: Future>(p_budget: u64, mk: impl Fn() -> F) -> F::Output {
+    for _ in 0..3 {
+        if draw(100) < p_budget {
+            if let Some(v) = block_on(budgeted(mk(), draw(3) as u32)) {
+                return v;
+            }
+        } else {
+            break;
+        }
+    }
+    block_on(mk())
+}
+
 /// C01 (f): once every future is gone every wait queue must be empty. `is_live ≡ false`:
 /// the walk never dereferences a node, a remaining node is reported instead of touched.
 fn queues_must_be_empty(what: &str, snap: Snapshot) {
@@ -110,6 +126,9 @@ impl History {
 
 fn base_cfg(rng: &mut Rng, c: &mut Cfg) {
     c.insert("stick".into(), *rng.pick(&[0i64, 30, 60, 85, 97]));
+    // a quarter of the executions use PCT (strict priorities, depth 1..3) instead of the random walk
+    c.insert("pct_depth".into(), if rng.pct(25) { rng.range(1, 3) } else { 0 });
+    c.insert("pct_len".into(), *rng.pick(&[40i64, 150, 600]));
     c.insert("threads".into(), rng.range(2, 4));
     c.insert("iters".into(), rng.range(1, 3));
     c.insert("p_budget".into(), *rng.pick(&[0i64, 30, 60]));
@@ -117,9 +136,12 @@ fn base_cfg(rng: &mut Rng, c: &mut Cfg) {
 
 // ================================================================ T-mutex
 
-const MX_LOCK: u32 = 0;
 const MX_UNLOCK: u32 = 1;
 const MX_IS_LOCKED: u32 = 2;
+const MX_POLL1: u32 = 3;
+const MX_POLLN: u32 = 4;
+const MX_TRY: u32 = 5;
+const MX_CANCEL: u32 = 6;
 
 fn t_mutex(cfg: &Cfg) {
     let fair = cfg_get(cfg, "fair", 0) != 0;
@@ -130,35 +152,43 @@ fn t_mutex(cfg: &Cfg) {
     let in_cs = Arc::new(AtomicBool::new(false));
     let succ = Arc::new(AtomicU64::new(0));
     let hist = Arc::new(History::default());
+    let flog = Arc::new(FairLog::default());
     let mut hs = Vec::new();
     for i in 0..n {
-        let (m, in_cs, succ, hist) = (m.clone(), in_cs.clone(), succ.clone(), hist.clone());
+        let (m, in_cs, succ, hist, flog) = (m.clone(), in_cs.clone(), succ.clone(), hist.clone(), flog.clone());
         hs.push(thread::spawn(move || {
-            for _ in 0..iters {
+            for it in 0..iters {
+                // attempt id, unique in the execution
+                let aid = (i * 16 + it) as u32;
                 if draw(100) < 20 {
                     let inv = hist.stamp();
                     let v = m.is_locked();
                     hist.record(inv, i as u32, MX_IS_LOCKED, 0, v as u32);
                 }
-                let acq_inv = hist.stamp();
                 let budget = if draw(100) < p_budget { Some(draw(4) as u32) } else { None };
                 let use_try = draw(100) < 15;
                 let mut g = if use_try {
-                    match m.try_lock() {
-                        Some(g) => g,
+                    let inv = hist.stamp();
+                    let s = inv + 1;
+                    let r = m.try_lock();
+                    hist.record(inv, i as u32, MX_TRY, aid, r.is_some() as u32);
+                    match r {
+                        Some(g) => {
+                            flog.ents.lock().unwrap().push(FairEnt { who: i as u32, n: 1, start: s, reg: 0, last_start: s, ready: hist.stamp() + 1 });
+                            g
+                        }
                         None => continue,
                     }
                 } else {
+                    let fut = fair_stamp(lin_poll(m.lock(), &hist, i as u32, aid, (MX_POLL1, MX_POLLN, MX_CANCEL)), i as u32, 1, &hist, &flog);
                     match budget {
-                        Some(b) => match block_on(budgeted(m.lock(), b)) {
+                        Some(b) => match block_on(budgeted(fut, b)) {
                             Some(g) => g,
                             None => continue,
                         },
-                        None => block_on(m.lock()),
+                        None => block_on(fut),
                     }
                 };
-                // the acquisition took effect somewhere between the start of the attempt and now
-                hist.record(acq_inv, i as u32, MX_LOCK, 0, 0);
                 if in_cs.swap(true, SeqCst) {
                     violation("C02", "two-in-critical-section", format!("thread {} holds a guard while another thread is inside the critical section", i));
                 }
@@ -176,25 +206,77 @@ fn t_mutex(cfg: &Cfg) {
     for h in hs {
         h.join().unwrap();
     }
-    // C02 under threads: lock / unlock / is_locked() observations must have a sequential explanation
+    // C02 / C04 under threads: every poll of a lock future, try_lock(), guard drop, cancellation
+    // and is_locked() observation must fit one sequential execution of the reference mutex
+    // (state: locked?, wait queue in arrival order; fair: only the head may take a free mutex
+    // and newcomers queue behind waiters)
     {
         let ops = hist.ops.lock().unwrap().clone();
         if ops.len() <= 60 {
-            let step = |st: &bool, op: &LinOp| -> Option<bool> {
+            let step = move |st: &(bool, Vec<u32>), op: &LinOp| -> Option<(bool, Vec<u32>)> {
+                let (locked, q) = (st.0, &st.1);
+                let id = op.arg;
                 match op.kind {
-                    MX_LOCK => if *st { None } else { Some(true) },
-                    MX_UNLOCK => if *st { Some(false) } else { None },
-                    _ => if (op.res != 0) == *st { Some(*st) } else { None },
+                    MX_POLL1 | MX_TRY => {
+                        let can = !locked && (!fair || q.is_empty());
+                        if (op.res != 0) != can {
+                            return None;
+                        }
+                        let mut q = q.clone();
+                        if !can && op.kind == MX_POLL1 {
+                            q.push(id);
+                        }
+                        Some((locked || can, q))
+                    }
+                    MX_POLLN => {
+                        let can = !locked && if fair { q.first() == Some(&id) } else { q.contains(&id) };
+                        if (op.res != 0) != can {
+                            return None;
+                        }
+                        let mut q = q.clone();
+                        if can {
+                            q.retain(|x| *x != id);
+                        }
+                        Some((locked || can, q))
+                    }
+                    MX_CANCEL => {
+                        let mut q = q.clone();
+                        q.retain(|x| *x != id);
+                        Some((locked, q))
+                    }
+                    MX_UNLOCK => if locked { Some((false, q.clone())) } else { None },
+                    _ => if (op.res != 0) == locked { Some(st.clone()) } else { None },
                 }
             };
-            if let Err(k) = lin::check(&ops, false, &step) {
+            if let Err(k) = lin::check(&ops, (false, Vec::new()), &step) {
                 let mut sorted = ops.clone();
                 sorted.sort_by_key(|o| o.inv);
-                let names = ["lock", "unlock", "is_locked"];
-                let txt: Vec<String> = sorted.iter().map(|o| format!("[{}..{}] t{} {}={}", o.inv, o.ret, o.thread, names[o.kind as usize], o.res)).collect();
-                violation("C02", "not-linearizable", format!("lock acquisitions, guard drops and is_locked() results have no sequential explanation (at most {} of {} operations can be ordered): {}", k, ops.len(), txt.join("; ")));
+                let names = ["?", "unlock", "is_locked", "first-poll", "re-poll", "try_lock", "cancel"];
+                let txt: Vec<String> = sorted.iter().map(|o| format!("[{}..{}] t{} {}(#{})={}", o.inv, o.ret, o.thread, names[o.kind as usize], o.arg, o.res)).collect();
+                // which property: without the fairness rules the history may still be explicable
+                let relaxed = move |st: &(bool, Vec<u32>), op: &LinOp| -> Option<(bool, Vec<u32>)> {
+                    let locked = st.0;
+                    match op.kind {
+                        MX_POLL1 | MX_TRY | MX_POLLN => {
+                            if op.res != 0 {
+                                if locked { None } else { Some((true, vec![])) }
+                            } else {
+                                Some((locked, vec![]))
+                            }
+                        }
+                        MX_CANCEL => Some((locked, vec![])),
+                        MX_UNLOCK => if locked { Some((false, vec![])) } else { None },
+                        _ => if (op.res != 0) == locked { Some((locked, vec![])) } else { None },
+                    }
+                };
+                let exclusion_ok = lin::check(&ops, (false, Vec::new()), &relaxed).is_ok();
+                let (prop, what) = if exclusion_ok { (if fair { "C04" } else { "C03" }, "mutual exclusion holds, but the outcomes of polls / try_lock contradict the wait queue order (a waiter was overtaken, or a free mutex was refused)") } else { ("C02", "not even mutual exclusion and is_locked() can be explained") };
+                violation(prop, "not-linearizable", format!("polls of lock futures, try_lock(), cancellations, guard drops and is_locked() results have no sequential explanation (fair = {}; at most {} of {} operations can be ordered; {}): {}", fair, k, ops.len(), what, txt.join("; ")));
             }
         }
+    }
+    if fair {
+        flog.check("C04", "mutex");
     }
     if m.is_locked() {
         violation("C02", "locked-after-all-dropped", "is_locked() is true although every guard was dropped".into());
@@ -217,11 +299,145 @@ fn cfg_mutex(rng: &mut Rng) -> Cfg {
     c
 }
 
+// ================================================================ poll-level histories (mutex, semaphore)
+
+/// Records every poll of an acquisition future, and its cancellation (drop while pending),
+/// as one operation each of the concurrent history: `kinds` = (first poll, later poll, cancel).
+/// The sequential models below are deterministic at this granularity (a poll's outcome is a
+/// function of lock state + wait queue), so a check and the action depending on it that
+/// drifted into two critical sections show up as a history without sequential explanation.
+struct LinPoll<F> {
+    fut: std::mem::ManuallyDrop<F>,
+    hist: Arc<History>,
+    thread: u32,
+    arg: u32,
+    kinds: (u32, u32, u32),
+    polled: bool,
+    done: bool,
+}
+
+fn lin_poll<F: Future>(fut: F, hist: &Arc<History>, thread: u32, arg: u32, kinds: (u32, u32, u32)) -> LinPoll<F> {
+    LinPoll { fut: std::mem::ManuallyDrop::new(fut), hist: hist.clone(), thread, arg, kinds, polled: false, done: false }
+}
+
+impl<F: Future> Future for LinPoll<F> {
+    type Output = F::Output;
+    fn poll(self: Pin<&mut Self>, cx: &mut Context<'_>) -> Poll<Self::Output> {
+        // Safety: structural pinning of `fut`
+        let this = unsafe { self.get_unchecked_mut() };
+        let inv = this.hist.stamp();
+        let r = unsafe { Pin::new_unchecked(&mut *this.fut) }.poll(cx);
+        let kind = if this.polled { this.kinds.1 } else { this.kinds.0 };
+        this.polled = true;
+        this.done = r.is_ready();
+        this.hist.record(inv, this.thread, kind, this.arg, r.is_ready() as u32);
+        r
+    }
+}
+
+impl<F> Drop for LinPoll<F> {
+    fn drop(&mut self) {
+        let cancel = self.polled && !self.done;
+        let inv = self.hist.stamp();
+        // Safety: dropped exactly once, in place (the future may be pinned)
+        unsafe { std::mem::ManuallyDrop::drop(&mut self.fut) };
+        if cancel {
+            self.hist.record(inv, self.thread, self.kinds.2, self.arg, 0);
+        }
+    }
+}
+
+// ================================================================ FIFO fairness under threads (C04, C07)
+
+/// One acquisition attempt that succeeded, with global stamps taken on the acquiring thread:
+/// `start` before its first poll, `reg` after its first poll returned Pending (it was queued
+/// by then; 0 = never pending), `last_start` before the poll that succeeded, `ready` after it.
+#[derive(Clone, Copy)]
+struct FairEnt {
+    who: u32,
+    /// requested amount (a zero-permit request never waits, not even on a fair semaphore)
+    n: u64,
+    start: u64,
+    reg: u64,
+    last_start: u64,
+    ready: u64,
+}
+
+#[derive(Default)]
+struct FairLog {
+    ents: StdMutex<Vec<FairEnt>>,
+}
+
+impl FairLog {
+    /// Fair mode: an attempt that was already queued when another one started is served first.
+    /// `A.reg < B.start` — A was in the queue before B began; `B.ready < A.last_start` — B had
+    /// the resource before the poll in which A obtained it even started. Cancelled attempts are
+    /// not in the log (a cancelled waiter may of course be overtaken).
+    fn check(&self, prop: &str, what: &str) {
+        let e = self.ents.lock().unwrap().clone();
+        for a in &e {
+            for b in &e {
+                if a.reg != 0 && b.n != 0 && a.reg < b.start && b.ready < a.last_start {
+                    violation(
+                        prop,
+                        "overtaken-under-threads",
+                        format!(
+                            "fair {}: thread {}'s request was queued at {} (first poll returned Pending), thread {}'s attempt started later ({}) and completed at {}, before the poll in which the queued request succeeded even started ({})",
+                            what, a.who, a.reg, b.who, b.start, b.ready, a.last_start
+                        ),
+                    );
+                }
+            }
+        }
+    }
+}
+
+struct FairStamp<F> {
+    fut: F,
+    hist: Arc<History>,
+    log: Arc<FairLog>,
+    ent: FairEnt,
+}
+
+fn fair_stamp<F: Future>(fut: F, who: u32, n: u64, hist: &Arc<History>, log: &Arc<FairLog>) -> FairStamp<F> {
+    FairStamp { fut, hist: hist.clone(), log: log.clone(), ent: FairEnt { who, n, start: 0, reg: 0, last_start: 0, ready: 0 } }
+}
+
+impl<F: Future> Future for FairStamp<F> {
+    type Output = F::Output;
+    fn poll(self: Pin<&mut Self>, cx: &mut Context<'_>) -> Poll<Self::Output> {
+        // Safety: structural pinning of `fut`
+        let this = unsafe { self.get_unchecked_mut() };
+        let s = this.hist.stamp() + 1;
+        if this.ent.start == 0 {
+            this.ent.start = s;
+        }
+        this.ent.last_start = s;
+        let fut = unsafe { Pin::new_unchecked(&mut this.fut) };
+        match fut.poll(cx) {
+            Poll::Ready(v) => {
+                this.ent.ready = this.hist.stamp() + 1;
+                this.log.ents.lock().unwrap().push(this.ent);
+                Poll::Ready(v)
+            }
+            Poll::Pending => {
+                if this.ent.reg == 0 {
+                    this.ent.reg = this.hist.stamp() + 1;
+                }
+                Poll::Pending
+            }
+        }
+    }
+}
+
 // ================================================================ T-sem
 
-const SM_ACQ: u32 = 0;
 const SM_REL: u32 = 1;
 const SM_PERMITS: u32 = 2;
+const SM_POLL1: u32 = 3;
+const SM_POLLN: u32 = 4;
+const SM_TRY: u32 = 5;
+const SM_CANCEL: u32 = 6;
 
 fn t_sem(cfg: &Cfg) {
     let fair = cfg_get(cfg, "fair", 0) != 0;
@@ -235,6 +451,7 @@ fn t_sem(cfg: &Cfg) {
     let circ = Arc::new(AtomicU64::new(p0));
     let held = Arc::new(AtomicU64::new(0));
     let hist = Arc::new(History::default());
+    let flog = Arc::new(FairLog::default());
     let mut hs = Vec::new();
     {
         let (sem, circ, hist) = (sem.clone(), circ.clone(), hist.clone());
@@ -249,34 +466,42 @@ fn t_sem(cfg: &Cfg) {
         }));
     }
     for i in 0..n {
-        let (sem, circ, held, hist) = (sem.clone(), circ.clone(), held.clone(), hist.clone());
+        let (sem, circ, held, hist, flog) = (sem.clone(), circ.clone(), held.clone(), hist.clone(), flog.clone());
         hs.push(thread::spawn(move || {
-            for _ in 0..iters {
+            for it in 0..iters {
                 if draw(100) < 20 {
                     let inv = hist.stamp();
                     let v = sem.permits();
                     hist.record(inv, i as u32, SM_PERMITS, 0, v as u32);
                 }
                 let want = draw(4);
-                let acq_inv = hist.stamp();
+                // attempt id (unique in the execution) and amount, packed
+                let aid = (((i * 16 + it) as u32) << 8) | want as u32;
                 // a request that can never be satisfied always carries a budget
                 let budget = if want > total || draw(100) < p_budget { Some(draw(5) as u32) } else { None };
                 let rel = if draw(100) < 20 {
-                    match sem.try_acquire(want as usize) {
-                        Some(r) => r,
+                    let inv = hist.stamp();
+                    let s = inv + 1;
+                    let r = sem.try_acquire(want as usize);
+                    hist.record(inv, i as u32, SM_TRY, aid, r.is_some() as u32);
+                    match r {
+                        Some(r) => {
+                            flog.ents.lock().unwrap().push(FairEnt { who: i as u32, n: want, start: s, reg: 0, last_start: s, ready: hist.stamp() + 1 });
+                            r
+                        }
                         None => continue,
                     }
                 } else {
+                    let fut = fair_stamp(lin_poll(sem.acquire(want as usize), &hist, i as u32, aid, (SM_POLL1, SM_POLLN, SM_CANCEL)), i as u32, want, &hist, &flog);
                     match budget {
                         // a request that can never be satisfied is never woken: it must re-poll by itself
-                        Some(b) => match block_on(if want > total { budgeted_spin(sem.acquire(want as usize), b) } else { budgeted(sem.acquire(want as usize), b) }) {
+                        Some(b) => match block_on(if want > total { budgeted_spin(fut, b) } else { budgeted(fut, b) }) {
                             Some(r) => r,
                             None => continue,
                         },
-                        None => block_on(sem.acquire(want as usize)),
+                        None => block_on(fut),
                     }
                 };
-                hist.record(acq_inv, i as u32, SM_ACQ, want as u32, 0);
                 let h = held.fetch_add(want, SeqCst) + want;
                 if h > circ.load(SeqCst) {
                     violation("C05", "over-grant", format!("thread {} acquired {} permit(s): {} held in total but only {} exist", i, want, h, circ.load(SeqCst)));
@@ -292,25 +517,78 @@ fn t_sem(cfg: &Cfg) {
     for h in hs {
         h.join().unwrap();
     }
-    // C05 under threads: acquisitions, releases and permits() observations must have a sequential explanation
+    // C05 / C07 under threads: every poll of an acquire future, try_acquire(), release,
+    // cancellation and permits() observation must fit one sequential execution of the reference
+    // semaphore (state: permits, wait queue in arrival order; fair: only the head may take
+    // permits and newcomers with n > 0 queue behind waiters)
     {
         let ops = hist.ops.lock().unwrap().clone();
         if ops.len() <= 60 {
-            let step = |st: &u64, op: &LinOp| -> Option<u64> {
-                match op.kind {
-                    SM_ACQ => if *st >= op.arg as u64 { Some(*st - op.arg as u64) } else { None },
-                    SM_REL => Some(*st + op.arg as u64),
-                    _ => if op.res as u64 == *st { Some(*st) } else { None },
+            type St = (u64, Vec<u32>);
+            let mk = move |fifo: bool| {
+                move |st: &St, op: &LinOp| -> Option<St> {
+                    let (permits, q) = (st.0, &st.1);
+                    let id = op.arg >> 8;
+                    let n = (op.arg & 0xff) as u64;
+                    match op.kind {
+                        SM_POLL1 | SM_TRY => {
+                            let can = permits >= n && (!fifo || q.is_empty() || n == 0);
+                            if (op.res != 0) != can {
+                                return None;
+                            }
+                            let mut q = q.clone();
+                            if !can && op.kind == SM_POLL1 {
+                                q.push(id);
+                            }
+                            Some((if can { permits - n } else { permits }, q))
+                        }
+                        SM_POLLN => {
+                            let can = permits >= n && if fifo { q.first() == Some(&id) } else { q.contains(&id) };
+                            if (op.res != 0) != can {
+                                return None;
+                            }
+                            let mut q = q.clone();
+                            if can {
+                                q.retain(|x| *x != id);
+                            }
+                            Some((if can { permits - n } else { permits }, q))
+                        }
+                        SM_CANCEL => {
+                            let mut q = q.clone();
+                            q.retain(|x| *x != id);
+                            Some((permits, q))
+                        }
+                        SM_REL => Some((permits + op.arg as u64, q.clone())),
+                        _ => if op.res as u64 == permits { Some(st.clone()) } else { None },
+                    }
                 }
             };
-            if let Err(k) = lin::check(&ops, p0, &step) {
+            if let Err(k) = lin::check(&ops, (p0, Vec::new()), &mk(fair)) {
                 let mut sorted = ops.clone();
                 sorted.sort_by_key(|o| o.inv);
-                let names = ["acquire", "release", "permits"];
-                let txt: Vec<String> = sorted.iter().map(|o| format!("[{}..{}] t{} {}({})={}", o.inv, o.ret, o.thread, names[o.kind as usize], o.arg, o.res)).collect();
-                violation("C05", "not-linearizable", format!("acquisitions, releases and permits() results have no sequential explanation (at most {} of {} operations can be ordered; initial permits {}): {}", k, ops.len(), p0, txt.join("; ")));
+                let names = ["?", "release", "permits", "first-poll", "re-poll", "try_acquire", "cancel"];
+                let txt: Vec<String> = sorted
+                    .iter()
+                    .map(|o| if o.kind >= SM_POLL1 { format!("[{}..{}] t{} {}(#{}, n={})={}", o.inv, o.ret, o.thread, names[o.kind as usize], o.arg >> 8, o.arg & 0xff, o.res) } else { format!("[{}..{}] t{} {}({})={}", o.inv, o.ret, o.thread, names[o.kind as usize], o.arg, o.res) })
+                    .collect();
+                // which property: successful acquisitions / releases / permits() alone (conservation)
+                let conservation = |st: &u64, op: &LinOp| -> Option<u64> {
+                    let n = (op.arg & 0xff) as u64;
+                    match op.kind {
+                        SM_POLL1 | SM_TRY | SM_POLLN => if op.res == 0 { Some(*st) } else if *st >= n { Some(*st - n) } else { None },
+                        SM_CANCEL => Some(*st),
+                        SM_REL => Some(*st + op.arg as u64),
+                        _ => if op.res as u64 == *st { Some(*st) } else { None },
+                    }
+                };
+                let conserved = lin::check(&ops, p0, &conservation).is_ok();
+                let (prop, what) = if !conserved { ("C05", "not even the permit count can be explained") } else if fair { ("C07", "permits are conserved, but the outcomes of polls / try_acquire contradict the wait queue order") } else { ("C06", "permits are conserved, but a poll / try_acquire was refused although its request fitted") };
+                violation(prop, "not-linearizable", format!("polls of acquire futures, try_acquire(), cancellations, releases and permits() results have no sequential explanation (fair = {}; at most {} of {} operations can be ordered; initial permits {}; {}): {}", fair, k, ops.len(), p0, what, txt.join("; ")));
             }
         }
+    }
+    if fair {
+        flog.check("C07", "semaphore");
     }
     if sem.permits() as u64 != total {
         violation("C05", "permits-not-conserved", format!("everything was dropped: permits() = {} but initial + released = {}", sem.permits(), total));
@@ -892,6 +1170,7 @@ fn t_oneshot_borrowed(cfg: &Cfg) {
     use futures_intrusive::channel::{GenericOneshotBroadcastChannel, GenericOneshotChannel};
     let n = cfg_get(cfg, "threads", 2) as usize;
     let broadcast = cfg_get(cfg, "mode", 0) == 2;
+    let p_budget = cfg_get(cfg, "p_budget", 0) as u64;
     let one = Arc::new(GenericOneshotChannel::<M, u32>::new());
     let bc = Arc::new(GenericOneshotBroadcastChannel::<M, u32>::new());
     let oks = Arc::new(AtomicUsize::new(0));
@@ -922,7 +1201,8 @@ fn t_oneshot_borrowed(cfg: &Cfg) {
     for i in 0..n {
         let (one, bc, somes, nones) = (one.clone(), bc.clone(), somes.clone(), nones.clone());
         hs.push(thread::spawn(move || {
-            let v = if broadcast { block_on(bc.receive()) } else { block_on(one.receive()) };
+            // receive attempts may be cancelled (dropped while pending or notified) and retried
+            let v = if broadcast { with_cancellations(p_budget, || bc.receive()) } else { with_cancellations(p_budget, || one.receive()) };
             match v {
                 Some(x) if x == 1 || x == 2 => {
                     somes.fetch_add(1, SeqCst);
@@ -958,6 +1238,7 @@ fn t_oneshot(cfg: &Cfg) {
         return t_oneshot_borrowed(cfg);
     }
     let n = cfg_get(cfg, "threads", 2) as usize;
+    let p_budget = cfg_get(cfg, "p_budget", 0) as u64;
     let (tx, rx) = sh::generic_oneshot_broadcast_channel::<M, u32>();
     let obs = tx.verif_observer();
     let got_none = Arc::new(AtomicUsize::new(0));
@@ -969,7 +1250,7 @@ fn t_oneshot(cfg: &Cfg) {
             let extra = rx.clone();
             if draw(2) == 0 {
                 drop(extra);
-                match block_on(rx.receive()) {
+                match with_cancellations(p_budget, || rx.receive()) {
                     Some(7) => {}
                     Some(x) => violation("C12", "wrong-value", format!("receiver {} got {}", i, x)),
                     None => {
@@ -978,7 +1259,7 @@ fn t_oneshot(cfg: &Cfg) {
                 }
             } else {
                 drop(rx);
-                if block_on(extra.receive()).is_none() {
+                if with_cancellations(p_budget, || extra.receive()).is_none() {
                     got_none.fetch_add(1, SeqCst);
                 }
             }
@@ -1013,6 +1294,7 @@ fn cfg_oneshot(rng: &mut Rng) -> Cfg {
 fn t_state(cfg: &Cfg) {
     let n = cfg_get(cfg, "threads", 2) as usize;
     let pubs = cfg_get(cfg, "pubs", 3) as u64;
+    let p_budget = cfg_get(cfg, "p_budget", 0) as u64;
     let (tx, rx) = sh::generic_state_broadcast_channel::<M, u64>();
     let obs = tx.verif_observer();
     let last_pub = Arc::new(AtomicU64::new(0));
@@ -1042,7 +1324,7 @@ fn t_state(cfg: &Cfg) {
             let mut id = StateId::new();
             let mut last = 0u64;
             loop {
-                match block_on(rx.receive(id)) {
+                match with_cancellations(p_budget, || rx.receive(id)) {
                     Some((nid, v)) => {
                         if !(nid > id) {
                             violation("C13", "id-not-increasing", format!("follower {} got a StateId that is not larger than the one it passed in", i));
@@ -1390,8 +1672,8 @@ fn cfg_handles(rng: &mut Rng) -> Cfg {
 
 // ================================================================ registry
 
-static T_MUTEX: ThreadScenDef = ThreadScenDef { name: "T-mutex", props: &["C02", "C03", "C01"], draw_cfg: cfg_mutex, body: t_mutex, liveness_prop: "C03" };
-static T_SEM: ThreadScenDef = ThreadScenDef { name: "T-sem", props: &["C05", "C06", "C01"], draw_cfg: cfg_sem, body: t_sem, liveness_prop: "C06" };
+static T_MUTEX: ThreadScenDef = ThreadScenDef { name: "T-mutex", props: &["C02", "C03", "C04", "C01"], draw_cfg: cfg_mutex, body: t_mutex, liveness_prop: "C03" };
+static T_SEM: ThreadScenDef = ThreadScenDef { name: "T-sem", props: &["C05", "C06", "C07", "C01"], draw_cfg: cfg_sem, body: t_sem, liveness_prop: "C06" };
 static T_CHAN: ThreadScenDef = ThreadScenDef { name: "T-chan", props: &["C08", "C09", "C10", "C01"], draw_cfg: cfg_chan, body: t_chan, liveness_prop: "C10" };
 static T_CHAN_SHARED: ThreadScenDef = ThreadScenDef { name: "T-chan-shared", props: &["C08", "C09", "C10", "C11", "C01"], draw_cfg: cfg_chan, body: t_chan_shared, liveness_prop: "C10" };
 static T_EVENT: ThreadScenDef = ThreadScenDef { name: "T-event", props: &["C14", "C01"], draw_cfg: cfg_event, body: t_event, liveness_prop: "C14" };
